@@ -5,7 +5,7 @@
    correspondence stream writes through real files). *)
 From Coq Require Import String.
 From Coq Require Import List Arith ZArith Bool.
-From PV Require Import Base.Index Np.Array Model.Sparse Model.Repr Model.C16IO Model.C16Harness Proofs.C16Proofs.
+From PV Require Import Base.Index Np.Array Model.Sparse Model.Repr Model.C16IO Model.C16Lines Model.C16Harness Proofs.C16Proofs Proofs.C16Lines.
 Import ListNotations.
 
 Section C16.
@@ -67,7 +67,59 @@ Theorem C16_one_based : forall (S : sparse D) (k : nat),
   nth (4 + k) (export_lines D T d0 print 1%Z (OSptensor S)) [] =
   map (fun x => Int (Z.of_nat x + 1)) (nth k (ssubs S) []) ++ [Num (print (nth k (svals S) d0))].
 Proof. exact (sptensor_line D T d0 print 1%Z). Qed.
+
+(* ---------------------------------------------------------------- the LINE-SENSITIVE import model (Model/C16Lines.v) *)
+(* import_data reads the header and every sparse entry with readline() and the dense values / weights / factor entries with
+   np.fromfile, which ignores line breaks. With the file as lines of tokens and that mixed reading modelled faithfully:
+   import (the lines export writes) = the object — for every kind, order >= 1, rank >= 1, every index base.
+   (A rank-0 Kruskal tensor is NOT re-imported: finding C16-N1, see C16_rank0_not_reimported below.) *)
+Theorem C16_roundtrip_lines : forall (ofZ : Z -> D) (b : Z) (o : obj D), wf_obj D o -> wf_lines D o ->
+  import_lines D T d0 parse ofZ b (export_lines D T d0 print b o) = Some o.
+Proof. exact (fun ofZ => roundtrip_lines D T d0 print parse ofZ parse_print). Qed.
 End C16.
+
+Section C16_guards.
+Variables (D T : Type) (d0 : D) (parse : T -> D) (ofZ : Z -> D).
+
+(* one subscript row per line, EXACTLY: a line is read as the entry (i, v) iff it is  t_1 ... t_k tv  with tv a number (or
+   integer) text of value v, every t_j an integer text not below the index base, and k = N (i = subscripts - base) or
+   k = 1 <> N (numpy broadcasts a single subscript to all N modes — accepted by pyttb) *)
+Theorem C16_entry_line : forall (b : Z) (N : nat) (l : list (token T)) (i : idx) (v : D),
+  entry_of_line D T parse ofZ b N l = Some (i, v) <->
+  exists ts tv j, l = ts ++ [tv] /\ val_tok D T parse ofZ tv = Some v /\ subs_of T b ts = Some j /\
+                  ((length j = N /\ i = j) \/ (length j <> N /\ exists x, j = [x] /\ i = repeat x N)).
+Proof. exact (entry_of_line_iff D T parse ofZ). Qed.
+
+(* too many or too few tokens on an entry line: rejected;  a subscript below the index base (index_base too large): rejected *)
+Theorem C16_entry_line_rejects : forall (b : Z) (N : nat) (l : list (token T)) (e : idx * D),
+  entry_of_line D T parse ofZ b N l = Some e ->
+  (length l = N + 1 \/ length l = 2) /\ Forall (fun t => exists z, t = Int z /\ (b <= z)%Z) (removelast l).
+Proof. exact (fun b N l e H => conj (entry_line_token_count D T parse ofZ b N l e H) (entry_line_base D T parse ofZ b N l e H)). Qed.
+
+(* the type word: accepted only if the first line starts with tensor | sptensor | matrix | ktensor; what follows the first
+   token of the first line is ignored *)
+Theorem C16_import_type_guard : forall (b : Z) (f : list (list (token T))) (o : obj D),
+  import_lines D T d0 parse ofZ b f = Some o ->
+  exists w x f', f = (Word w :: x) :: f' /\ (w = "tensor" \/ w = "sptensor" \/ w = "matrix" \/ w = "ktensor")%string.
+Proof. exact (import_type_guard D T d0 parse ofZ). Qed.
+Theorem C16_header_rest_ignored : forall (b : Z) (t : token T) (x : list (token T)) (f : list (list (token T))),
+  import_lines D T d0 parse ofZ b ((t :: x) :: f) = import_lines D T d0 parse ofZ b ([t] :: f).
+Proof. exact (import_header_rest_ignored D T d0 parse ofZ). Qed.
+
+(* an accepted sparse file gives subscripts INSIDE the shape, one value each: reading with a wrong index base either
+   rejects the file or (base too small, subscripts still in range) shifts them — it never yields an ill-formed tensor *)
+Theorem C16_import_sptensor_in_range : forall (b : Z) (f : list (list (token T))) (Sp : sparse D),
+  import_lines D T d0 parse ofZ b f = Some (OSptensor Sp) ->
+  Forall (fun i => inb (sshape Sp) i = true) (ssubs Sp) /\ length (ssubs Sp) = length (svals Sp).
+Proof. exact (import_sptensor_in_range D T d0 parse ofZ). Qed.
+End C16_guards.
+
+(* export_data's optional fmt_data / fmt_weights only change the number texts: the layout (words, integers, how many
+   number texts on which line) is the same for any two formats. The round trip (above) is claimed for formats with
+   parse (print v) = v: "%.16e" (17 significant digits, the default) and anything more precise. *)
+Theorem C16_format_layout : forall (D T1 T2 : Type) (d0 : D) (print1 : D -> T1) (print2 : D -> T2) (b : Z) (o : obj D),
+  layout (export_lines D T1 d0 print1 b o) = layout (export_lines D T2 d0 print2 b o).
+Proof. exact export_layout_format_free. Qed.
 
 Print Assumptions C16_roundtrip_tensor.
 Print Assumptions C16_dense_layout.
@@ -79,6 +131,13 @@ Print Assumptions C16_roundtrip.
 Print Assumptions C16_export_injective.
 Print Assumptions C16_index_base.
 Print Assumptions C16_one_based.
+Print Assumptions C16_roundtrip_lines.
+Print Assumptions C16_entry_line.
+Print Assumptions C16_entry_line_rejects.
+Print Assumptions C16_import_type_guard.
+Print Assumptions C16_header_rest_ignored.
+Print Assumptions C16_import_sptensor_in_range.
+Print Assumptions C16_format_layout.
 
 (* ---- non-vacuity: concrete, non-symmetric instances (numbers stand for themselves) ---- *)
 Example C16_example_tensor :
@@ -113,3 +172,37 @@ Example C16_example_matrix :
     [[Word "matrix"]; [Int 2]; [Int 2; Int 3]; [Num 1]; [Num 2]; [Num 3]; [Num 4]; [Num 5]; [Num 6]]%Z
   /\ zimport 1 (zexport 1 (OMatrix 2 3 A)) = Some (OMatrix 2 3 A).
 Proof. split; reflexivity. Qed.
+
+(* malformed files, line by line (Z instance): what is rejected and what pyttb's reader lets through *)
+Example C16_example_malformed :
+  let good := [[Word "sptensor"]; [Int 2]; [Int 2; Int 3]; [Int 2]; [Int 2; Int 3; Num 7]; [Int 1; Int 1; Num 9]]%Z in
+  let S := mkSp [2; 3] [[1; 2]; [0; 0]] [7; 9]%Z in
+  zimport_lines 1 good = Some (OSptensor S)
+  /\ zimport_lines 1 ([Word "sptensors"] :: tl good) = None                                   (* wrong type word *)
+  /\ zimport_lines 1 (firstn 5 good) = None                                                    (* truncated *)
+  /\ zimport_lines 1 (firstn 4 good ++ [[Int 2; Int 3; Int 1; Num 7]; [Int 1; Int 1; Num 9]])%Z = None   (* too many tokens *)
+  /\ zimport_lines 1 (firstn 4 good ++ [[Int 2; Int 3]; [Num 7]; [Int 1; Int 1; Num 9]])%Z = None         (* row split over two lines *)
+  /\ zimport_lines 2 good = None                                         (* index_base too large: a subscript falls below 0 *)
+  /\ zimport_lines 0 good = None                                         (* index_base too small: [2;3] does not fit (2,3) *)
+  /\ zimport_lines 1 (good ++ [[Word "junk"]]) = Some (OSptensor S)     (* lines after the nnz-th entry are never read *)
+  /\ zimport_lines 1 ([Word "sptensor"; Word "x"] :: [Int 2; Num 5] :: tl (tl good))%Z = Some (OSptensor S)  (* rest of header lines ignored *)
+  /\ zimport_lines 1 (firstn 4 good ++ [[Int 2; Num 7]; [Int 1; Int 1; Num 9]])%Z
+       = Some (OSptensor (mkSp [2; 3] [[1; 1]; [0; 0]] [7; 9]%Z)).      (* ONE subscript: broadcast to both modes *)
+Proof. vm_compute. repeat split; reflexivity. Qed.
+
+(* dense values are read with np.fromfile: line breaks between them do not matter, a word among them does *)
+Example C16_example_dense_lines :
+  zimport_lines 1 [[Word "tensor"]; [Int 1]; [Int 3]; [Num 10; Num 11]; []; [Num 12]; [Num 99]]%Z
+    = Some (OTensor (mkDense [3] [10; 11; 12]%Z))
+  /\ zimport_lines 1 [[Word "tensor"]; [Int 1]; [Int 3]; [Num 10]; [Word "x"]; [Num 11]; [Num 12]]%Z = None
+  /\ zimport_lines 1 [[Word "tensor"]; [Int 2]; [Int 3]; [Num 10]; [Num 11]; [Num 12]]%Z = None.   (* order line <> number of sizes *)
+Proof. vm_compute. repeat split; reflexivity. Qed.
+
+(* finding C16-N1: a Kruskal tensor without components is written with an empty weights line that import never consumes *)
+Example C16_rank0_not_reimported :
+  let K := mkK (@nil Z) [[[]; []]; [[]; []; []]] in
+  zexport_lines 1 (OKtensor K) =
+    [[Word "ktensor"]; [Int 2]; [Int 2; Int 3]; [Int 0]; []; [Word "matrix"]; [Int 2]; [Int 2; Int 0]; []; [];
+     [Word "matrix"]; [Int 2]; [Int 3; Int 0]; []; []; []]%Z
+  /\ zimport_lines 1 (zexport_lines 1 (OKtensor K)) = None.
+Proof. vm_compute. split; reflexivity. Qed.
